@@ -178,6 +178,8 @@ func (p *pairSim) pump() {
 				if p.phase[x] == 1 {
 					p.phase[x] = 2
 				}
+			} else if e.Got.Flags == flRestartRsp && p.phase[x] == 3 {
+				p.phase[x] = 4 // handshake complete, not drained again
 			}
 		}
 	}
@@ -272,6 +274,15 @@ func generatePair(rng *vh.Rng) PairCase {
 			}
 		}
 		pc.TailRounds++
+		for x := 0; x < 2; x++ {
+			if p.phase[x] == 2 {
+				// drained: let the engine continue so that requests held back by the pause are served
+				m := vh.Msg{Kind: "KCtrl", Src: 30, Dst: pCT, Flags: flRestartReq}
+				if e := p.do(x, Event{E: "d", Port: "CT", Msg: &m}); e.Acc != nil && *e.Acc {
+					p.phase[x] = 3
+				}
+			}
+		}
 		done := p.side[0].DrainAcks >= p.side[0].DrainRequests && p.side[1].DrainAcks >= p.side[1].DrainRequests &&
 			len(p.side[0].Requests) == len(p.side[0].Answers) && len(p.side[1].Requests) == len(p.side[1].Answers) && len(p.queue) == 0
 		if done || p.side[0].Crashed || p.side[1].Crashed {
